@@ -10,8 +10,8 @@ import StepModel.GenFiles
   order                                   -> O <schema>: key key … | <schema>: …      (DICTdo orders)
   scan                                    -> S <stdout short names …> | <dir> <hex CMakeLists.txt> | …   (final file system)
   listed                                  -> L <schema> f f … | <schema> f f …
-  passes                                  -> P 0  |  P unmodelled
-  cxx auto | cxx <schema>=<k,k,…>;…       -> C f f …  |  C overflow | C unmodelled
+  passes                                  -> P <schema>=<k,…>;…  |  P unmodelled
+  cxx auto | cxx <schema>=<k,k,…>;…       -> C f f …  |  C refused (identifier longer than MAX_IDENT_LEN: exit 1) | C unmodelled
 -/
 open StepModel.GenFiles StepModel.Generated.Scanner StepModel
 
@@ -40,8 +40,7 @@ def hex (s : String) : String :=
 def parseKind (s : String) : Option TypeKind := allKinds.find? (fun k => kindName k == s)
 def parseBool : String → Option Bool | "0" => some false | "1" => some true | _ => none
 
-def declKey : Decl → String
-  | .entity e => e.name | .type t => t.name | .other n => n
+def declKey : Decl → String := Cxx.declName
 
 /-- the file as both programs see it: schemas and declarations in DICTdo order -/
 def St.file (st : St) : SchemaFile :=
@@ -60,7 +59,7 @@ def parseSufs (f : SchemaFile) (spec : String) : Option (Schema → List Nat) :=
   let items := (spec.splitOn ";").filter (· ≠ "")
   let parsed := items.mapM fun it =>
     match it.splitOn "=" with
-    | [n, ks] => ((ks.splitOn ",").mapM String.toNat?).map fun l => (n, l)
+    | [n, ks] => (((ks.splitOn ",").filter (· ≠ "")).mapM String.toNat?).map fun l => (n, l)
     | _ => none
   parsed.bind fun tbl =>
     if f.schemas.all (fun s => tbl.any (·.1 == s.name)) then
@@ -93,18 +92,20 @@ def handle (st : St) (line : String) : St × String :=
   | ["listed"] =>
     let f := st.file
     (st, "L " ++ " | ".intercalate (f.schemas.map fun s => s.name ++ " " ++ " ".intercalate (Scanner.cmake f.path s).listed))
-  | ["passes"] => match Cxx.passes st.file with
-    | some l => (st, "P " ++ " ".intercalate (l.map toString))
+  | ["passes"] =>
+    let f := st.file
+    match Cxx.passes f with
+    | some pf => (st, "P " ++ ";".intercalate (f.schemas.map fun s => s.name ++ "=" ++ ",".intercalate ((pf s).map toString)))
     | none => (st, "P unmodelled")
   | ["cxx", spec] =>
     let f := st.file
     let sufs : Option (Schema → List Nat) :=
-      if spec == "auto" then (Cxx.passes f).map fun l => fun _ => l else parseSufs f spec
+      if spec == "auto" then Cxx.passes f else parseSufs f spec
     match sufs with
     | none => (st, if spec == "auto" then "C unmodelled" else "bad-op")
     | some sf => match Cxx.created f sf with
       | some l => (st, "C " ++ " ".intercalate l)
-      | none => (st, "C overflow")
+      | none => (st, "C refused")
   | [] => (st, "")
   | _ => (st, "bad-op")
 
